@@ -5,6 +5,7 @@ import (
 	"sort"
 	"strings"
 
+	"github.com/ohler55/ojg"
 	"github.com/ohler55/ojg/alt"
 )
 
@@ -261,5 +262,62 @@ func suiteDiff(tier string, seed uint64, model string) *Report {
 	}
 	rep.Distinct = len(distinct)
 	rep.Rule = "directed pairs with ignore paths naming different array indexes, wildcards and nested positions; seeded trees with 0-3 perturbations (replace a leaf, int<->float of the same value, append/drop an element, add/delete a member, null instead of absent) and 0-2 ignore paths drawn from the tree; alt.Diff on simple and gen data (as a set of paths), alt.Compare and alt.Match against the extracted diff / jeq / jmatch; non-trivial = pairs with a non-empty specified Diff"
+	return rep
+}
+
+// struct arguments: Match / Diff / Compare on Go structs behave as on their decomposition with
+// every field kept (nil fields included)
+type dInner struct{ N int }
+type dRec struct {
+	Name  string
+	Next  *dInner
+	Props map[string]any
+	List  []any
+}
+
+func suiteDiffStructs(tier string, seed uint64) *Report {
+	rep := &Report{Property: "C19", Tier: tier, Seed: seed}
+	r := NewRng(seed + 1919)
+	n := 400
+	if tier == "thorough" {
+		n = 8000
+	}
+	gen := func() *dRec {
+		x := &dRec{Name: r.Pick([]string{"a", "b", ""})}
+		if r.Chance(50) {
+			x.Next = &dInner{N: r.Intn(3)}
+		}
+		switch r.Intn(4) {
+		case 0:
+			x.Props = map[string]any{"p": nil}
+		case 1:
+			x.Props = map[string]any{"p": int64(r.Intn(2))}
+		case 2:
+			x.Props = map[string]any{"p": int64(1), "q": nil}
+		}
+		if r.Chance(40) {
+			x.List = []any{int64(r.Intn(2)), nil}
+		}
+		return x
+	}
+	keepAll := &ojg.Options{}
+	for i := 0; i < n; i++ {
+		a, b := gen(), gen()
+		if r.Chance(30) {
+			cp := *a
+			b = &cp
+		}
+		ma, mb := alt.Decompose(a, keepAll), alt.Decompose(b, keepAll)
+		rep.Evaluations++
+		check := func(where, got, want string) {
+			if got != want {
+				rep.Add(Disagreement{Case: Show(ma) + " / " + Show(mb), Where: where, Kind: "impl-law:struct-arguments", Impl: got, Spec: want})
+			}
+		}
+		check("alt.Match(struct, struct)", safe(func() string { return fmt.Sprint(alt.Match(a, b)) }), safe(func() string { return fmt.Sprint(alt.Match(ma, mb)) }))
+		check("alt.Diff(struct, struct)", safe(func() string { return fmt.Sprint(len(alt.Diff(a, b)) == 0) }), safe(func() string { return fmt.Sprint(len(alt.Diff(ma, mb)) == 0) }))
+		check("alt.Compare(struct, struct)", safe(func() string { return fmt.Sprint(alt.Compare(a, b) == nil) }), safe(func() string { return fmt.Sprint(alt.Compare(ma, mb) == nil) }))
+	}
+	rep.Rule = "struct arguments: Match / Diff / Compare on pairs of Go structs (nil pointer fields, nil map members, nil list elements) must answer as on their decompositions with every field kept"
 	return rep
 }
